@@ -71,6 +71,89 @@ theorem descObj_unfold (reg : Reg) (f o : Nat) (ob : Obj) (hob : h[o]? = some ob
   simp only [descObj, hob, List.map_map]
   rfl
 
+/-- From the loader invariant to the Spec: if every memo entry is `Good`, the memo table is injective
+and `main` has been restored, then every registered name has been restored (by reachability along the
+registration order) and the by-name views before / after coincide. -/
+theorem spec_of_loaded {reg : Reg} (hk : RegOk main reg) (hreach : Reach h main reg) (ls : LState)
+    (hgood : ∀ e ∈ ls.memo, Good h reg ls e.1 e.2) (hvnd : (ls.memo.map Prod.snd).Nodup)
+    {i : Nat} (hmi : lookupMemo ls.memo mainName = some i) : specRoundTrip h reg ls = true := by
+  have hmain : (main, mainName) ∈ reg := lookupName_some_mem hk.mainIn
+  -- every registered name has been restored
+  have hall : ∀ (k : Nat) (pre : Reg) (e : Nat × Str) (post : Reg), pre.length = k → reg = pre ++ e :: post →
+      ∃ j, lookupMemo ls.memo e.2 = some j := by
+    intro k
+    induction k using Nat.strongRecOn with
+    | _ k ih =>
+      intro pre e post hlen hsplit
+      have he : e ∈ reg := by rw [hsplit]; simp
+      rcases hreach pre e post hsplit with hm | ⟨q, hq, ob, hob, f, hf, hfv⟩
+      · have : e.2 = mainName := hk.name_unique (o := e.1) (by rw [show (e.1, e.2) = e from rfl]; exact he) (by rw [hm]; exact hmain)
+        rw [this]; exact ⟨i, hmi⟩
+      · obtain ⟨qe, hqe, hq1⟩ := List.mem_map.mp hq
+        obtain ⟨a, b, hab⟩ := List.append_of_mem hqe
+        have hsplit' : reg = a ++ qe :: (b ++ e :: post) := by rw [hsplit, hab]; simp
+        have hlt : a.length < k := by rw [← hlen, hab]; simp
+        obtain ⟨jq, hjq⟩ := ih a.length hlt a qe (b ++ e :: post) rfl hsplit'
+        obtain ⟨_, o', ob', lo, a1, a2, _a3, _a4, a5⟩ := hgood (qe.2, jq) (lookupMemo_some_mem hjq)
+        have hqin : (q, qe.2) ∈ reg := by
+          rw [← hq1]; rw [hsplit']; simp
+        have : o' = q := hk.obj_unique a1 hqin
+        subst this
+        rw [hob] at a2
+        cases a2
+        obtain ⟨l, _hl, hrel⟩ := relVals_mem a5 f.val (List.mem_map.mpr ⟨f, hf, rfl⟩)
+        rw [hfv] at hrel
+        cases l <;> simp only [RelVal] at hrel
+        obtain ⟨m, hm1, hm2⟩ := hrel
+        have hm' : m = e.2 := hk.name_unique (lookupName_some_mem hm1) (by rw [show (e.1, e.2) = e from rfl]; exact he)
+        exact ⟨_, hm' ▸ hm2⟩
+  have hall' : ∀ e ∈ reg, ∃ j, lookupMemo ls.memo e.2 = some j := by
+    intro e he
+    obtain ⟨a, b, hab⟩ := List.append_of_mem he
+    exact hall a.length a e b rfl hab
+  unfold specRoundTrip
+  rw [Bool.and_eq_true]
+  constructor
+  · -- distinct names are distinct restored objects
+    unfold memoDistinct
+    simp only
+    have hsome : ∀ e ∈ reg, (lookupMemo ls.memo e.2).isSome = true := by
+      intro e he; obtain ⟨j, hj⟩ := hall' e he; rw [hj]; rfl
+    rw [filterMap_eq_map_of_some (fun e : Nat × Str => lookupMemo ls.memo e.2) 0 reg hsome]
+    simp only [List.length_map, beq_self_eq_true, Bool.true_and, decide_eq_true_eq]
+    apply nodup_map_on reg (nodup_of_nodup_map Prod.fst _ hk.objsNodup)
+    intro e1 he1 e2 he2 heq
+    obtain ⟨j1, hj1⟩ := hall' e1 he1
+    obtain ⟨j2, hj2⟩ := hall' e2 he2
+    simp only [hj1, hj2, Option.getD_some] at heq
+    subst heq
+    have hn : e1.2 = e2.2 := by
+      have m1 := lookupMemo_some_mem hj1
+      have m2 := lookupMemo_some_mem hj2
+      have := nameOfIdx_of_mem hvnd m1
+      rw [nameOfIdx_of_mem hvnd m2] at this
+      exact (Option.some.inj this).symm
+    have ho : e1.1 = e2.1 := hk.obj_unique (n := e1.2) he1 (by rw [hn]; exact he2)
+    exact Prod.ext ho hn
+  · -- every restored object looks, by name, like the saved one
+    rw [decide_eq_true_eq]
+    unfold viewAfter viewBefore
+    apply List.map_congr_left
+    intro e he
+    obtain ⟨j, hj⟩ := hall' e he
+    obtain ⟨_, o', ob, lo, a1, a2, a3, a4, a5⟩ := hgood (e.2, j) (lookupMemo_some_mem hj)
+    have : o' = e.1 := hk.obj_unique a1 he
+    subst this
+    simp only [hj]
+    rw [descObj_unfold reg h.length e.1 ob a2]
+    obtain ⟨hlen, htok⟩ := relVals_tokens (reg := reg) hvnd
+      (descL ls.heap ls.memo ls.heap.length) (descObj h reg h.length) a5
+    simp only [descL, a3, a4]
+    rw [htok]
+    simp only [List.length_map] at hlen
+    rw [hlen]
+
+
 /-- **Round trip of an acyclic graph of plain classes** (sharing allowed). -/
 theorem roundtrip_acyclic_core (rank : Nat → Nat) (hno : NoOwn h)
     (hearly : ∀ ob ∈ h, ∀ f ∈ ob.fields, f.phase = .early)
@@ -93,81 +176,7 @@ theorem roundtrip_acyclic_core (rank : Nat → Nat) (hno : NoOwn h)
   obtain ⟨ls, i, hload, inv, _ext, hmi⟩ :=
     load_named C (rank main + 1) main mainName (Nat.lt_succ_self _) hmain fuel hfuel initL inv0
       (by intro w hw; simp [initL] at hw)
-  refine ⟨ls, i, hload, ?_⟩
-  -- every registered name has been restored
-  have hall : ∀ (k : Nat) (pre : Reg) (e : Nat × Str) (post : Reg), pre.length = k → st.reg = pre ++ e :: post →
-      ∃ j, lookupMemo ls.memo e.2 = some j := by
-    intro k
-    induction k using Nat.strongRecOn with
-    | _ k ih =>
-      intro pre e post hlen hsplit
-      have he : e ∈ st.reg := by rw [hsplit]; simp
-      rcases hreach pre e post hsplit with hm | ⟨q, hq, ob, hob, f, hf, hfv⟩
-      · have : e.2 = mainName := hk.name_unique (o := e.1) (by rw [show (e.1, e.2) = e from rfl]; exact he) (by rw [hm]; exact hmain)
-        rw [this]; exact ⟨i, hmi⟩
-      · obtain ⟨qe, hqe, hq1⟩ := List.mem_map.mp hq
-        obtain ⟨a, b, hab⟩ := List.append_of_mem hqe
-        have hsplit' : st.reg = a ++ qe :: (b ++ e :: post) := by rw [hsplit, hab]; simp
-        have hlt : a.length < k := by rw [← hlen, hab]; simp
-        obtain ⟨jq, hjq⟩ := ih a.length hlt a qe (b ++ e :: post) rfl hsplit'
-        obtain ⟨_, o', ob', lo, a1, a2, _a3, _a4, a5⟩ := inv.good (qe.2, jq) (lookupMemo_some_mem hjq)
-        have hqin : (q, qe.2) ∈ st.reg := by
-          rw [← hq1]; rw [hsplit']; simp
-        have : o' = q := hk.obj_unique a1 hqin
-        subst this
-        rw [hob] at a2
-        cases a2
-        obtain ⟨l, _hl, hrel⟩ := relVals_mem a5 f.val (List.mem_map.mpr ⟨f, hf, rfl⟩)
-        rw [hfv] at hrel
-        cases l <;> simp only [RelVal] at hrel
-        obtain ⟨m, hm1, hm2⟩ := hrel
-        have hm' : m = e.2 := hk.name_unique (lookupName_some_mem hm1) (by rw [show (e.1, e.2) = e from rfl]; exact he)
-        exact ⟨_, hm' ▸ hm2⟩
-  have hall' : ∀ e ∈ st.reg, ∃ j, lookupMemo ls.memo e.2 = some j := by
-    intro e he
-    obtain ⟨a, b, hab⟩ := List.append_of_mem he
-    exact hall a.length a e b rfl hab
-  unfold specRoundTrip
-  rw [Bool.and_eq_true]
-  constructor
-  · -- distinct names are distinct restored objects
-    unfold memoDistinct
-    simp only
-    have hsome : ∀ e ∈ st.reg, (lookupMemo ls.memo e.2).isSome = true := by
-      intro e he; obtain ⟨j, hj⟩ := hall' e he; rw [hj]; rfl
-    rw [filterMap_eq_map_of_some (fun e : Nat × Str => lookupMemo ls.memo e.2) 0 st.reg hsome]
-    simp only [List.length_map, beq_self_eq_true, Bool.true_and, decide_eq_true_eq]
-    apply nodup_map_on st.reg (nodup_of_nodup_map Prod.fst _ hk.objsNodup)
-    intro e1 he1 e2 he2 heq
-    obtain ⟨j1, hj1⟩ := hall' e1 he1
-    obtain ⟨j2, hj2⟩ := hall' e2 he2
-    simp only [hj1, hj2, Option.getD_some] at heq
-    subst heq
-    have hn : e1.2 = e2.2 := by
-      have m1 := lookupMemo_some_mem hj1
-      have m2 := lookupMemo_some_mem hj2
-      have := nameOfIdx_of_mem inv.valsNodup m1
-      rw [nameOfIdx_of_mem inv.valsNodup m2] at this
-      exact (Option.some.inj this).symm
-    have ho : e1.1 = e2.1 := hk.obj_unique (n := e1.2) he1 (by rw [hn]; exact he2)
-    exact Prod.ext ho hn
-  · -- every restored object looks, by name, like the saved one
-    rw [decide_eq_true_eq]
-    unfold viewAfter viewBefore
-    apply List.map_congr_left
-    intro e he
-    obtain ⟨j, hj⟩ := hall' e he
-    obtain ⟨_, o', ob, lo, a1, a2, a3, a4, a5⟩ := inv.good (e.2, j) (lookupMemo_some_mem hj)
-    have : o' = e.1 := hk.obj_unique a1 he
-    subst this
-    simp only [hj]
-    rw [descObj_unfold st.reg h.length e.1 ob a2]
-    obtain ⟨hlen, htok⟩ := relVals_tokens (reg := st.reg) inv.valsNodup
-      (descL ls.heap ls.memo ls.heap.length) (descObj h st.reg h.length) a5
-    simp only [descL, a3, a4]
-    rw [htok]
-    simp only [List.length_map] at hlen
-    rw [hlen]
+  exact ⟨ls, i, hload, spec_of_loaded hk hreach ls inv.good inv.valsNodup hmi⟩
 
 end
 
